@@ -66,6 +66,55 @@ func c11R2(c *Ctx) {
 	if n < 20 {
 		c.undecided("timeout/sites", "fewer timed read sites than expected")
 	}
+	// the last hop: the buffer's readers install the timeout they were given before they wait — from the reader's entry
+	// the blocking fetch is not reachable without the store of the timeout parameter into the field the wait selects on
+	// (and a timer left over from a resume is dropped)
+	nInst := 0
+	for _, rn := range []string{"trzszBuffer.readLine", "trzszBuffer.readLineOnWindows", "trzszBuffer.readBinary"} {
+		rf := c.fn(rn)
+		ti := timeoutParam(rf)
+		if ti < 0 {
+			c.bad("timeout/installed@"+rn, c.pos(rf.Pos()), "the reader takes no timeout")
+			continue
+		}
+		tp := rf.Params[ti]
+		isFetch := func(in ssa.Instruction) bool {
+			ci, ok := in.(ssa.CallInstruction)
+			return ok && calleeID(ci.Common()) == "(*trzsz.trzszBuffer).nextBuffer"
+		}
+		for _, fld := range []string{"timeout", "newTimeout"} {
+			fld := fld
+			hit, path := reachFrom(rf.Blocks[0], 0, isFetch, c.orWrapper("install:"+rn+":"+fld, func(in ssa.Instruction) bool {
+				if ci, isCall := in.(ssa.CallInstruction); isCall && isAtomicOnField(ci, fld, "Store", "Swap") {
+					// the field kept as an atomic value: Store / Swap of the parameter resp. of nil
+					a := ci.Common().Args[1]
+					if fld == "timeout" {
+						return true
+					}
+					return isNilConst(a)
+				}
+				st, ok := in.(*ssa.Store)
+				if !ok {
+					return false
+				}
+				n2, _ := fieldAddrName(st.Addr)
+				if n2 != "trzszBuffer."+fld {
+					return false
+				}
+				if fld == "timeout" {
+					return st.Val == ssa.Value(tp) || isTimeoutChanType(st.Val.Type())
+				}
+				return isNilConst(st.Val)
+			}))
+			nInst++
+			msg := "the reader can start waiting without installing the timeout it was given: the wait uses the previous read's (already fired or nil) timer"
+			if fld == "newTimeout" {
+				msg = "the reader can start waiting with a resume timer left over from an earlier read still pending"
+			}
+			c.check(hit == nil, "timeout/installed@"+rn+"."+fld, c.pos(rf.Pos()), "installed before the first fetch", msg, c.pathStr(path)...)
+		}
+	}
+	_ = nInst
 	// getNewTimeout yields nil only for Timeout <= 0
 	g := c.fn("trzszTransfer.getNewTimeout")
 	eachInstr(g, func(in ssa.Instruction) {
